@@ -566,6 +566,24 @@ FAMILIES = {
 }
 
 
+# decaying classes only (C11): the same generators, runners and model expressions, cases of other classes rejected
+DECAYING = ("DecayTank", "DecayQueueTank", "DecayArc", "DecayArcAlt")
+
+
+def _decaying(gen):
+    def g(r, maxops):
+        for _ in range(200):
+            c = gen(r, maxops)
+            if c["cls"] in DECAYING and any(op[0] == "end" for op in c["ops"]):
+                return c
+        return c
+    return g
+
+
+for _d, _b in (("dtank", "tank"), ("dqtank", "qtank"), ("dqarc", "qarc"), ("daltarc", "altarc")):
+    FAMILIES[_d] = (_decaying(FAMILIES[_b][0]), FAMILIES[_b][1], FAMILIES[_b][2])
+
+
 def case_json(c):
     def js(x):
         if isinstance(x, F):
